@@ -20,6 +20,11 @@ from . import common as cm
 
 REQ = ["AutoImp.World", "AutoImp.Needs", "AutoImp.TryImport", "AutoImp.AutoImport", "AutoImp.Wire"]
 
+ANCHORS = ["pyflyby._autoimp:symbol_needs_import", "pyflyby._autoimp:get_known_import", "pyflyby._autoimp:_try_import",
+           "pyflyby._autoimp:auto_import_symbol", "pyflyby._autoimp:auto_import", "pyflyby._autoimp:find_missing_imports",
+           "pyflyby._autoimp:ScopeStack.__init__", "pyflyby._importdb:ImportDB.by_fullname_or_import_as.func",
+           "pyflyby._modules:ModuleHandle.exists.func", "pyflyby._modules:ModuleHandle.ancestors.func"]
+
 TOPS = ["pa", "pb", "qa", "ma"]
 SUBS = ["sa", "sb"]
 ATTR = ["xa", "xb"]
@@ -31,25 +36,44 @@ BUILTINS_USED = ["len", "id"]
 # ---------------------------------------------------------------------------------------------
 # generators
 
+# what the body of a module that "raises" does.  _try_import / ModuleHandle.exists catch `Exception`:
+# every kind below must be treated alike (recorded in _IMPORT_FAILED, never attempted again)
+RAISE_KINDS = ["RuntimeError", "SyntaxError", "SyntaxError", "ImportError", "ModuleNotFoundError", "ZeroDivisionError",
+               "badsibling", "badfile", "AttributeError", "KeyError"]
+
+
+def rk(r, p):
+    return r.choice(RAISE_KINDS) if r.random() < p else False
+
+
 def gen_world(r, clash):
     mods = {}
     for top in TOPS:
         if r.random() < 0.8:
             pkg = r.random() < 0.6
-            mods[top] = dict(pkg=pkg, attrs=[a for a in ATTR if r.random() < .5], raises=r.random() < .12)
+            mods[top] = dict(pkg=pkg, attrs=[a for a in ATTR if r.random() < .5], raises=rk(r, .15))
             if pkg:
                 for s in SUBS:
                     if r.random() < .6:
                         pk2 = r.random() < .3
                         d = top + "." + s
-                        mods[d] = dict(pkg=pk2, attrs=[a for a in ATTR if r.random() < .5], raises=r.random() < .15)
+                        mods[d] = dict(pkg=pk2, attrs=[a for a in ATTR if r.random() < .5], raises=rk(r, .17))
                         if pk2 and r.random() < .7:
-                            mods[d + ".sb"] = dict(pkg=False, attrs=["xa"], raises=r.random() < .1)
+                            mods[d + ".sb"] = dict(pkg=False, attrs=["xa"], raises=rk(r, .1))
                         if clash and r.random() < .5:
                             mods[top]["attrs"].append(s)        # static attribute spelled like the submodule
             elif r.random() < .15:
                 # a file below a non-package: never importable
                 mods[top + ".sa"] = dict(pkg=False, attrs=["xa"], raises=False)
+    return mods
+
+
+def close_world(mods):
+    """drop entries whose parent is not in the universe (a directory without __init__.py would be a
+    namespace package on disk, which the World model does not have)"""
+    for d in sorted(mods, key=lambda x: x.count(".")):
+        if "." in d and d.rsplit(".", 1)[0] not in mods:
+            del mods[d]
     return mods
 
 
@@ -101,6 +125,21 @@ WRAP = ["%s", "%s", "%s", "(%s)", "f(%s)" , "(lambda: %s)", "[%s for _ in ()]", 
 
 def gen_code(r, mods, db):
     names = [pick_name(r, mods, db) for _ in range(r.randint(1, 3))]
+    if r.random() < .3:
+        # several missing names that resolve to ONE import statement (db `import widget`, code
+        # `widget.alpha + widget.beta`): a failure for the first must not be attempted for the second
+        base = None
+        raising = [d for d in sorted(mods) if mods[d]["raises"]]
+        if db and r.random() < .5:
+            base = r.choice(db)[1]
+        elif raising and r.random() < .7:
+            base = r.choice(raising)
+        elif mods:
+            base = r.choice(sorted(mods))
+        if base:
+            tails = r.sample(ATTR + SUBS + [NEVER], r.randint(2, 3))
+            names = [base + "." + t for t in tails] + names[:1]
+            return r.choice([" + ", " , "]).join(names)
     parts = []
     for n in names:
         w = r.choice(WRAP)
@@ -110,7 +149,42 @@ def gen_code(r, mods, db):
     return " , ".join(parts)
 
 
+# statement shapes: every one READS %(a)s (and %(b)s) unconditionally at module level when executed; helper names
+# (_x, _w, _f ...) are only stored.  After a True result the C07 oracle executes the snippet for real.
+STMT = ["%(a)s += 1", "%(a)s.zq += 1", "%(a)s[0] += 1", "%(a)s[0] = 1", "%(a)s.zq = 1", "del %(a)s.zq", "del %(a)s[0]",
+        "with %(a)s as _w:\n    pass", "with %(a)s, %(b)s as _w:\n    pass", "@%(a)s\ndef _f():\n    pass",
+        "@%(a)s(1)\nclass _K:\n    pass", "_x = f'{%(a)s}'", "_x = f'{%(a)s!r:>{%(b)s}}'", "assert %(a)s, %(b)s",
+        "_x = %(a)s if %(b)s else 0", "for _i in %(a)s:\n    pass", "for _i in ():\n    pass\nelse:\n    %(b)s",
+        "class _K(%(a)s):\n    pass", "class _K:\n    _y = %(a)s", "def _g(_p=%(a)s):\n    pass",
+        "def _g(_p: %(a)s = 0) -> %(b)s:\n    pass", "_x: %(a)s = 1", "_x = [%(a)s for _i in (1,)]", "_x = {%(a)s: %(b)s}",
+        "_x = (%(a)s)(%(b)s)", "_x = %(a)s and %(b)s", "_x = -%(a)s", "_x = %(a)s[%(b)s:]", "_x = [*%(a)s]", "print(%(a)s, file=None)",
+        "while %(a)s:\n    break", "if %(a)s:\n    pass\nelif %(b)s:\n    pass", "_x = lambda _q=%(a)s: _q", "_x = (_y := %(a)s)",
+        "import os as _o\n%(a)s", "raise_ = %(a)s; _x = %(b)s", "%(a)s.zq: int = 1", "%(a)s @= %(b)s", "_x = %(a)s < %(b)s < 3",
+        "try:\n    pass\nfinally:\n    %(a)s", "_x = yield_ = %(a)s", "_x, _z = %(a)s, %(b)s", "_x = await_ = [%(b)s, %(a)s][0]"]
+
+
+def gen_stmt_code(r, mods, db):
+    parts = []
+    for _ in range(r.randint(1, 2)):
+        parts.append(r.choice(STMT) % {"a": pick_name(r, mods, db), "b": pick_name(r, mods, db)})
+    return "\n".join(parts) + r.choice(["", "\n"])
+
+
 BAD_CODE = ["pa.sa +", "(", "pa qa", "import", "pa..sa", "1 +* 2", "def"]
+
+# near-valid forms: an otherwise valid snippet that does not compile only because of its surroundings
+BAD_WRAP = [" %s", "\t%s", "  %s", "\n %s", "%s\n  %s", "%s \\", "(%s", "%s)", "[%s", "%s]", "%s +", "%s,,", "%s = ",
+            ";%s", "%s.", ".%s", "%s if", "if %s", "while", "%s\n\tx", " %s\n", "%s $", "%s ?", "return %s\n )"]
+# harmless surroundings: these DO compile and must behave like the bare snippet
+OK_WRAP = ["%s ", "%s\n", "%s;", "%s  # c", "\n%s", "%s\n\n", "(%s)\n", "%s\t", "\\\n%s"]
+
+
+def gen_bad_code(r, mods, db):
+    if r.random() < .25:
+        return r.choice(BAD_CODE)
+    w = r.choice(BAD_WRAP)
+    base = gen_code(r, mods, db)
+    return w.replace("%s", base)
 
 
 def gen_ns(r, mods, nlevels, exotic):
@@ -184,14 +258,59 @@ def gen_case(seed, i):
         if ops and r.random() < .15:
             # the user deletes a name between two calls (`del x`), same cell or not
             ops.append({"op": "del", "lvl": r.randrange(nlev), "key": r.choice(TOPS + ALIAS + ATTR)})
-        if r.random() < (.12 if boundary else .04):
-            ops.append({"op": "call", "code": r.choice(BAD_CODE)})
+        if r.random() < (.2 if boundary else .1):
+            ops.append({"op": "call", "code": gen_bad_code(r, mods, db)})
         elif ops and r.random() < .2 and any(o["op"] == "call" for o in ops):
             ops.append(dict(r.choice([o for o in ops if o["op"] == "call"])))      # same code again (same cell or not)
         else:
-            ops.append({"op": "call", "code": gen_code(r, mods, db)})
+            if r.random() < .3:
+                code = gen_stmt_code(r, mods, db)
+            else:
+                code = gen_code(r, mods, db)
+            if r.random() < .15 and "\n" not in code:
+                code = r.choice(OK_WRAP) % code
+            ops.append({"op": "call", "code": code})
     return {"i": i, "stream": stream, "mods": mods, "db": db, "forget": forget, "nss": nss,
             "preload": preload, "ops": ops}
+
+
+def gen_shadow_case(seed, i):
+    """an OUTER namespace binds N to the real module N, the code reads an attribute the module lacks,
+    and the DB offers a different object under the name N (`from compat import N`): nothing may be
+    bound in the target namespace (it would shadow N with a different object)."""
+    r = cm.rng(seed, "c06-shadow", i)
+    mods = gen_world(r, clash=False)
+    N = r.choice(TOPS)
+    M = r.choice([t for t in TOPS if t != N])
+    mods[N] = dict(pkg=r.random() < .5, attrs=[a for a in ATTR if r.random() < .4], raises=False)
+    for d in [d for d in mods if d.startswith(N + ".")]:
+        if not mods[N]["pkg"] or r.random() < .5:
+            del mods[d]
+    close_world(mods)
+    mods[M] = dict(pkg=True, attrs=sorted(set(mods.get(M, {}).get("attrs", [])) | {"xa"}), raises=False)
+    k = r.random()
+    if k < .4:
+        db = [[M + ".xa", N]]                                   # from M import xa as N
+    elif k < .7:
+        mods[M + "." + N] = dict(pkg=False, attrs=["xa"], raises=False)
+        db = [[M + "." + N, N]]                                 # from M import N   (a submodule called N)
+    else:
+        db = [[M, N]]                                           # import M as N
+    if r.random() < .4:
+        db += [e for e in rand_db(r, mods) if e[1] != N and not e[0].startswith(N + ".") and e[0] != N][:2]
+    nlev = r.choice([2, 2, 3])
+    nss = [dict() for _ in range(nlev)]
+    nss[r.randrange(nlev - 1)][N] = "mod:" + N                   # an outer level, never the target
+    if r.random() < .3:
+        nss[-1][r.choice(ALIAS + ATTR)] = "ext:1"
+    missing_attr = [a for a in ATTR + SUBS + [NEVER] if a not in mods[N]["attrs"] and (N + "." + a) not in mods]
+    a = r.choice(missing_attr)
+    codes = [N + "." + a, "%s.%s + 1 , %s" % (N, a, r.choice([M, N, "len"])), "(lambda: %s.%s.xb)" % (N, a)]
+    ops = [{"op": "call", "code": r.choice(codes)}]
+    if r.random() < .5:
+        ops += [{"op": "newcell"}, {"op": "call", "code": r.choice(codes)}]
+    return {"i": i, "stream": "shadow", "mods": mods, "db": db, "forget": [], "nss": nss,
+            "preload": [N], "ops": ops}
 
 
 def gen_f21_case(seed, i):
@@ -223,12 +342,21 @@ class Ext(object):
 
 
 def write_world(root, mods):
+    with open(os.path.join(root, "vbadsyn.py"), "w") as f:
+        f.write("x = (\n")
     for d, m in mods.items():
         path = os.path.join(root, *d.split("."))
         src = "__import__('builtins')._verif_log.append(['exec', __name__])\n"
         src += "".join("%s = 'val:%s.%s'\n" % (a, d, a) for a in m["attrs"])
-        if m["raises"]:
-            src += "raise RuntimeError('boom')\n"
+        kind = m["raises"]
+        if kind is True:
+            kind = "RuntimeError"
+        if kind == "badsibling":
+            src += "import vbadsyn\n"                       # a sibling that does not compile: SyntaxError
+        elif kind == "badfile":
+            src = "def (:\n"                                 # the file itself does not compile (body never runs)
+        elif kind:
+            src += "raise %s('boom')\n" % kind
         if m["pkg"]:
             os.makedirs(path, exist_ok=True)
             with open(os.path.join(path, "__init__.py"), "w") as f:
@@ -324,7 +452,21 @@ def child_main(case, root):
         same = (list(before.keys()) == list(namespace.keys())[:len(before)]
                 and all(namespace[k] is v for k, v in before.items()))
         added = [k for k in namespace if k not in before]
-        rec["try"].append({"imp": str(Import(imp)), "res": bool(res), "preserved": same, "added": added,
+        yielded = True
+        if res and added:
+            # C06 oracle: the new binding is what executing this very statement yields (checked now, in
+            # a forked copy: a later import of the same call may change what the statement would yield)
+            stmt = str(Import(imp))
+
+            def probe():
+                scratch = {}
+                exec(stmt, scratch)
+                for k in added:
+                    if k not in scratch or scratch[k] is not namespace.get(k):
+                        return "binding %r is not what %r yields" % (k, stmt)
+                return True
+            yielded = _in_grandchild(probe)
+        rec["try"].append({"imp": str(Import(imp)), "res": bool(res), "preserved": same, "added": added, "yielded": yielded,
                            "executed": len(rec["exec"]) - n_exec,
                            "in_failed": Import(imp) in A._IMPORT_FAILED,
                            "target_is_last": namespace is nss[-1]})
@@ -410,7 +552,8 @@ def child_main(case, root):
                     step["missing_after"] = [str(x) for x in orig_fmi(code, nss)]
                 except BaseException as e:
                     step["missing_after"] = "EXC " + type(e).__name__
-            step["values_ok"] = value_probe(case, step, nss, idx if not isinstance(out["index"], str) else {})
+            bad_y = [t["yielded"] for t in rec["try"] if t["yielded"] is not True]
+            step["values_ok"] = bad_y[0] if bad_y else True
         step["st"] = snapshot()
         out["steps"].append(step)
         for ns in nss:
@@ -452,31 +595,20 @@ def exec_probe(code, nss):
         g = {}
         for ns in nss:
             g.update(ns)
+        # statement by statement, so that an AttributeError / TypeError of one statement does not hide the
+        # NameError of the next (the generated statements never read a name another statement stores)
         try:
-            exec(compile(code, "<snippet>", "exec"), g)
-        except NameError as e:
-            return str(e)
-        except BaseException:
+            body = ast.parse(code).body
+        except SyntaxError:
             return None
+        for stmt in body:
+            try:
+                exec(compile(ast.Module(body=[stmt], type_ignores=[]), "<snippet>", "exec"), g)
+            except NameError as e:
+                return "%s (statement %d)" % (e, body.index(stmt))
+            except BaseException:
+                pass
         return None
-    return _in_grandchild(fn)
-
-
-def value_probe(case, step, nss, idx):
-    """C06 oracle: every added binding is what executing its import statement yields:
-    re-execute, in a scratch dict, the statement recorded by the _try_import wrapper."""
-    todo = [t for t in step["try"] if t["res"] and t["added"]]
-    if not todo:
-        return True
-
-    def fn():
-        for t in todo:
-            scratch = {}
-            exec(t["imp"], scratch)
-            for k in t["added"]:
-                if k not in scratch or scratch[k] is not nss[-1].get(k):
-                    return "binding %r is not what %r yields" % (k, t["imp"])
-        return True
     return _in_grandchild(fn)
 
 
@@ -689,9 +821,42 @@ def spelled_names(code):
     return chains, ids
 
 
+def compiles(code):
+    """the property's "code that does not parse": decided by CPython on the ORIGINAL string"""
+    try:
+        compile(code, "<snippet>", "exec", dont_inherit=True)
+        return True
+    except (SyntaxError, ValueError):
+        return False
+
+
 def prefixes(d):
     p = d.split(".")
     return [".".join(p[:i]) for i in range(1, len(p) + 1)]
+
+
+def spec_index(case, im):
+    """by_fullname_or_import_as as the property describes it, from the DB text itself: every import under its
+    local name, `import p` under every proper dotted prefix p of a full name; forgotten imports removed, keys
+    without candidate dropped.  (With a forget list the known set is taken as the DB object holds it: how
+    __forget_imports__ composes is C12's subject.)"""
+    known = [list(e) for e in (im["known"] if case.get("forget") else case["db"])]
+    forgotten = [list(e) for e in (im["forgotten"] if case.get("forget") else [])]
+    d = {}
+    for full, as_ in known:
+        d.setdefault(as_, [])
+        if [full, as_] not in d[as_]:
+            d[as_].append([full, as_])
+        for p in prefixes(full)[:-1]:
+            d.setdefault(p, [])
+            if [p, p] not in d[p]:
+                d[p].append([p, p])
+    out = {}
+    for k, v in d.items():
+        v = sorted(e for e in v if e not in forgotten)
+        if v:
+            out[k] = v
+    return out
 
 
 def is_f21(case, step):
@@ -707,6 +872,33 @@ def is_f07a(case, step):
     submodule files"""
     mods = case["mods"]
     return any(("%s.%s" % (d, a)) in mods for d, m in mods.items() for a in m["attrs"])
+
+
+def attr_store_roots(code):
+    """roots of the attribute chains that are plain store targets (`a.b = v`, `a.b: T = v`, `for a.b in ...`,
+    `with x as a.b`); the target of an augmented assignment is read first and does not count"""
+    roots = set()
+    try:
+        tree = ast.parse(code)
+    except SyntaxError:
+        return roots
+    aug = {id(n.target) for n in ast.walk(tree) if isinstance(n, ast.AugAssign)}
+    for n in ast.walk(tree):
+        if isinstance(n, ast.Attribute) and isinstance(n.ctx, ast.Store) and id(n) not in aug:
+            b = n
+            while isinstance(b, ast.Attribute):
+                b = b.value
+            if isinstance(b, ast.Name):
+                roots.add(b.id)
+    return roots
+
+
+def is_attrstore(code, nameerror):
+    """classifier of C05's open finding F10-attrstore seen through C07: the NameError is for the root of
+    a plain attribute-store target of the snippet (`a.b = v` with `a` unbound is not reported missing)"""
+    import re
+    m = re.match(r"name '([^']+)' is not defined", nameerror or "")
+    return bool(m) and m.group(1) in attr_store_roots(code)
 
 
 def has_dotted_key(case, prev):
@@ -726,12 +918,12 @@ def is_rebind_same(case, step, prev):
     return True
 
 
-def oracle(ctx, prop, case, im):
+def oracle(ctx, prop, case, im, wfp=False):
     """returns list of (clause, detail); known findings are reported through ctx.known_hit"""
     bad = []
     prev = im["init"]
     failed_stmts = set()
-    index = im["index"] if isinstance(im["index"], dict) else {}
+    index = spec_index(case, im)
     for k, (o, st) in enumerate(zip(case["ops"], im["steps"])):
         if o["op"] == "clearfailed":
             failed_stmts = set()
@@ -740,6 +932,8 @@ def oracle(ctx, prop, case, im):
             continue
         code = o["code"]
         chains, ids = spelled_names(code)
+        if chains is not None and not compiles(code):
+            chains, ids = None, None
         cur = st["st"]
         if isinstance(st["r"], str):
             if is_f21(case, st):
@@ -789,12 +983,17 @@ def oracle(ctx, prop, case, im):
                         bad.append(("failure_atomic", "call %d: %r raised but is not in _IMPORT_FAILED" % (k, stmt)))
         if prop == "C07" and chains is not None:
             if st["r"] is True and st["nameerror"]:
-                if has_dotted_key(case, prev):
+                if is_attrstore(code, st["nameerror"]):
+                    ctx.known_hit("F10-attrstore", "`a.b = v` with `a` unbound: find_missing_imports does not report `a` (open finding of C05), so auto_import returns True and executing raises NameError")
+                elif has_dotted_key(case, prev):
                     ctx.known_hit("F07b", "a namespace holding a dotted key 'a.b' makes a.b 'not need import' while a is unbound: True result, then NameError")
                 else:
                     bad.append(("success_resolves", "call %d: auto_import(%r) returned True but executing it raises NameError: %s" % (k, code, st["nameerror"])))
             if st["r"] is True and st["missing_after"]:
-                if has_dotted_key(case, prev):
+                if wfp:
+                    # C07_success_resolves_wf applies (initial state WF, world without clash; WF is preserved)
+                    bad.append(("success_resolves_wf", "call %d: well-formed state, auto_import(%r) returned True but afterwards %r still need import" % (k, code, st["missing_after"])))
+                elif has_dotted_key(case, prev):
                     pass
                 elif is_f07a(case, st) and not isinstance(st["missing_after"], str):
                     ctx.known_hit("F07a", "after a True result find_missing_imports(code) is not empty: a value attribute was replaced by the same-named submodule during the call")
@@ -835,6 +1034,13 @@ def oracle(ctx, prop, case, im):
 
 # ---------------------------------------------------------------------------------------------
 
+def drop_badfile(case, st):
+    bad = {d for d, m in case["mods"].items() if m["raises"] == "badfile"}
+    if bad:
+        st = dict(st, log=[e for e in st["log"] if not (e[0] == "exec" and e[1] in bad)])
+    return st
+
+
 def compare_case(ctx, prop, case, im, mv, nm):
     ok = True
     if "__exc__" in im or "__timeout__" in im:
@@ -844,13 +1050,13 @@ def compare_case(ctx, prop, case, im, mv, nm):
     if im["index"] != mi:
         ctx.disagreement("by_fullname_or_import_as", case, im["index"], mi)
         ok = False
-    a, b = canon_impl_state(case, im["init"]), d_state(nm, mv["init"])
+    a, b = drop_badfile(case, canon_impl_state(case, im["init"])), drop_badfile(case, d_state(nm, mv["init"]))
     if a != b:
         ctx.disagreement("initial state (World.load)", case, a, b)
         return False
     for k, (st, ms) in enumerate(zip(im["steps"], mv["steps"])):
-        a = canon_impl_state(case, st["st"])
-        b = d_state(nm, ms["st"])
+        a = drop_badfile(case, canon_impl_state(case, st["st"]))
+        b = drop_badfile(case, d_state(nm, ms["st"]))
         ra = {True: "true", False: "false", "EXC AssertionError": "crash"}.get(st.get("r"), st.get("r")) if st["op"] == "call" else None
         rb = ms["r"]
         if ra != rb or a != b:
@@ -862,11 +1068,17 @@ def compare_case(ctx, prop, case, im, mv, nm):
 
 
 def run_shared(ctx, prop, n=None, nf21=None):
-    n = n if n is not None else int(os.environ.get("VERIF_C06_N", 0)) or (600 if ctx.quick else 12000)
+    cm.check_anchors(ctx, ANCHORS)
+    n = n if n is not None else int(os.environ.get("VERIF_C06_N", 0)) or (1200 if ctx.quick else 20000) * ctx.scale
     nf21 = nf21 if nf21 is not None else (12 if ctx.quick else 200)
+    nshadow = max(4, n // 12)
     ctx.coverage["rule"] = ("call sequences from one seeded PRNG over a synthetic universe on disk (4/5 main stream, 1/5 boundary "
                             "stream: attribute/submodule clashes, dotted keys in namespaces, failing pre-imports, more unparsable code) "
-                            "+ a small stream with __forget_imports__ (F21); non-trivial = some call imported something or reported failure; "
+                            "+ a stream where an outer namespace binds a module and the DB offers a different object under that name "
+                            "+ a small stream with __forget_imports__ (F21); modules raise RuntimeError / SyntaxError (raised, from a sibling that does "
+                            "not compile, or their own file not compiling) / ImportError / ModuleNotFoundError / ZeroDivisionError / AttributeError / KeyError; "
+                            "several missing names resolving to one import statement; near-valid unparsable snippets (leading indentation, trailing "
+                            "backslash, unbalanced brackets, dangling operators); non-trivial = some call imported something or reported failure; "
                             "distinct by hash of the case")
     ctx.assumptions += [
         "World (load / exec_import / find_spec) is an oracle for CPython's import system on a universe of plain modules; it is compared with the real import system after every call (sys.modules, module attributes, executed bodies)",
@@ -874,7 +1086,8 @@ def run_shared(ctx, prop, n=None, nf21=None):
         "which alphabet names are builtins is taken from the running interpreter",
     ]
     ctx.notes["trusted_base"] = ["one interpreter state per case is obtained by fork() of a worker that has imported only pyflyby and the harness"]
-    cases = cm.load_corpus(prop) + [gen_case(ctx.seed, i) for i in range(n)] + [gen_f21_case(ctx.seed, i) for i in range(nf21)]
+    cases = (cm.load_corpus(prop) + [gen_case(ctx.seed, i) for i in range(n)]
+             + [gen_shadow_case(ctx.seed, i) for i in range(nshadow)] + [gen_f21_case(ctx.seed, i) for i in range(nf21)])
     impl = cm.run_impl("c06", "impl_case", cases, timeout_case=40)
     exprs, nms, idxs = [], [], []
     for ci, (c, im) in enumerate(zip(cases, impl)):
@@ -907,7 +1120,9 @@ def run_shared(ctx, prop, n=None, nf21=None):
         compare_case(ctx, prop, c, im, mv, nm)
         if not mv["wf"]:
             ctx.bump("initial_state_not_wf")
-        for clause, detail in oracle(ctx, prop, c, im):
+        if mv.get("wfp"):
+            ctx.bump("initial_state_wfp")
+        for clause, detail in oracle(ctx, prop, c, im, wfp=bool(mv.get("wfp"))):
             ctx.violation(clause, c, detail)
         nontriv = False
         for st in im["steps"]:
@@ -943,7 +1158,7 @@ def replay_shared(payload, prop):
         out["model"] = {"index": d_index(nm, mv["index"]), "wf": mv["wf"],
                         "steps": [{"r": s["r"], "st": d_state(nm, s["st"])} for s in mv["steps"]]}
         ctx = cm.Ctx(prop, "quick", 0)
-        out["oracle"] = oracle(ctx, prop, case, im)
+        out["oracle"] = oracle(ctx, prop, case, im, wfp=bool(mv.get("wfp")))
         out["known"] = ctx.known_hits
     print(json.dumps(out, indent=1, default=str))
     return 0
